@@ -374,6 +374,19 @@ class Flow:
                 res.leaves.add(Leaf("global", f"{m2.short}.{r[2]}", p, post))
                 for v in vals:
                     out.append((m2.body_fn, v, p, (), post))
+                # functions that rebind the module variable (`global x`)
+                for g in m2.functions:
+                    self.cg.local_names(g)
+                    if r[2] in g.__dict__.get("_globals_declared", ()):
+                        for n2 in fn_nodes(g):
+                            if isinstance(n2, ast.Assign):
+                                for t2 in n2.targets:
+                                    if isinstance(t2, ast.Name) and t2.id == r[2]:
+                                        out.append((g, n2.value, p, (), post))
+                                    elif isinstance(t2, (ast.Tuple, ast.List)) and isinstance(n2.value, (ast.Tuple, ast.List)) and len(t2.elts) == len(n2.value.elts):
+                                        for te, ve in zip(t2.elts, n2.value.elts):
+                                            if isinstance(te, ast.Name) and te.id == r[2]:
+                                                out.append((g, ve, p, (), post))
                 # module-level containers mutated at import time (KeySet.algorithm_keys[...] = ...) are tables
             elif name in ("True", "False", "None"):
                 res.leaves.add(Leaf("const", name, (), post))
